@@ -11,6 +11,7 @@ import (
 	"path/filepath"
 	"runtime"
 	"sort"
+	"strings"
 	"sync/atomic"
 	"time"
 
@@ -395,6 +396,12 @@ func parent(p *Prop, r *ev.Run) {
 				t.WallS = rep.WallS
 			}
 			for k, v := range rep.Extra {
+				if strings.HasPrefix(k, "max-") {
+					if v > t.Extra[k] {
+						t.Extra[k] = v
+					}
+					continue
+				}
 				t.Extra[k] += v
 			}
 			for _, h := range sd.Outcomes[i] {
